@@ -855,4 +855,14 @@ def module_grid(tier):
     add("statcond", "n4-m0-f12", n=4, main=[0], free=[1, 2], mclass="symmetric")
     add("statcond", "n3-dyad", n=3, main=[0, 1], free=[2], mclass="symmetric", seed="dyad")
     add("statcond", "n3-dense", n=3, main=[0], free=[1, 2], mclass="symmetric", sparse=False)
+    # real-typed seeds (1.0, np.ones(n)) on complex outputs: every item with complex data whose seeds are plain dense arrays
+    extra = []
+    for g in G:
+        if g.get("real_seed") or g.get("concrete_fd") or g.get("seed") == "dyad":
+            continue
+        if (g["id"] in ("einsum-matvec-cplx", "einsum-quad-cplx", "assemble-general-complex-x", "elemop-Strain-cplx-u",
+                        "elemop-ElementAverage-cplx-u", "elemop-ElementOperation-rep-cplx-u", "inverse-n2-cplx",
+                        "linsolve-n2-cplxrhs", "complex-MakeComplex", "concat-real-then-cplx")):
+            extra.append(dict(g, id=g["id"] + "-realseed", real_seed=True, logical_dtype=True, c01_only=True))
+    G.extend(extra)
     return G
